@@ -180,13 +180,14 @@ func (s *System) stop(checkLog bool, timeout ...time.Duration) error {
 		return stateError
 	}
 
-	// 优先离开集群（未启用集群时 clusterContext 为 nil）
-	if s.clusterContext != nil {
-		s.clusterContext.Leave()
-	}
-
 	var stopTimeout = sugar.Max(sugar.FirstOrDefault(timeout, s.options.StopTimeout), 0)
 	s.Logger().Debug("actor system stopping", log.Duration("timeout", stopTimeout))
+
+	// 优先离开集群（未启用集群时 clusterContext 为 nil）；等待离开所用的时间计入停止超时
+	var stopBegin = time.Now()
+	if s.clusterContext != nil {
+		s.clusterContext.LeaveWithin(stopTimeout)
+	}
 
 	if s.Context != nil {
 		s.Context.Kill(s.Context.Ref(), true, "actor system stop")
@@ -194,7 +195,7 @@ func (s *System) stop(checkLog bool, timeout ...time.Duration) error {
 		select {
 		case <-s.guardClosedSignal:
 			break
-		case <-time.After(stopTimeout):
+		case <-time.After(sugar.Max(stopTimeout-time.Since(stopBegin), 0)):
 			s.Logger().Error("actor system stop failed", log.Duration("timeout", stopTimeout))
 			// 仍在终止中的 Actor 结束后再停止调度器：此处直接返回会使调度器的协程永久驻留
 			go func() {
